@@ -223,3 +223,48 @@ Proof.
   | _ => brk H; okinv3 H; fin
   end.
 Qed.
+
+Lemma backref_loop_safe name fnix : forall total k,
+  forallb safe_ev (backref_loop name fnix total k) = true.
+Proof.
+  induction total as [|t IH]; intro k; [reflexivity|].
+  cbn [backref_loop]. rewrite !forallb_app, IH.
+  destruct (1 <? N.of_nat k)%N; expose; rewrite ?forallb_app; cbn [forallb]; rewrite ?dec_inert; fin.
+Qed.
+
+Lemma put_backref_safe name total st :
+  forallb safe_ev (fst (fst (put_footnote_backref name total st))) = true.
+Proof.
+  unfold put_footnote_backref. destruct (_ <=? _)%N; [reflexivity|].
+  cbn [fst]. apply backref_loop_safe.
+Qed.
+
+Ltac use_backref :=
+  match goal with
+  | E : put_footnote_backref ?n ?t ?s = (?l, _, _) |- _ =>
+    let PB := fresh "PB" in
+    pose proof (put_backref_safe n t s) as PB; rewrite E in PB; cbn [fst] in PB;
+    cbn [forallb]; rewrite ?forallb_app, PB
+  end.
+
+Lemma exit_safe o c v sp ch st e st' :
+  o_unsafe o = false -> v_ok v = true ->
+  exit_ o c (Node v sp ch) st = Ok (e, st') -> forallb safe_ev e = true.
+Proof.
+  intros U V H. destruct v; try discriminate V;
+  unfold exit_, sp_attr in H; cbv beta iota zeta in H.
+  all: lazymatch type of V with
+  | v_ok (Heading _ _) = true =>
+    apply heading_levels in V; okinv2 H;
+    repeat (destruct V as [-> | V]; [fin|]); subst level; fin
+  | v_ok (EscapedTag _) = true =>
+    cbn [v_ok] in V; okinv2 H; expose; rewrite V; reflexivity
+  | v_ok (Image _ _) = true =>
+    brk H; okinv2 H; rewrite ?forallb_app; expose;
+    rewrite ?url_parts_ps; rewrite ?url_parts_vs by exact U; 
+    rewrite ?plain_list_is_escape, ?unescape_escape; fin
+  | v_ok Paragraph = true => brk H; okinv2 H; try use_backref; fin
+  | v_ok (FootnoteDefinition _ _) = true => brk H; okinv2 H; try use_backref; fin
+  | _ => brk H; okinv2 H; fin
+  end.
+Qed.
